@@ -220,8 +220,54 @@ def shard(binpath, seed, sh, n, reps, procs):
     return res
 
 
+def history(binpath, seed, sh):
+    """the verdict for one input must not depend on what the process verified before: A, then many verifications that
+    fail (inside a sub-layout, at the top level, in a rule), then A again -- in one executor process"""
+    import copy
+    rng = common.rng_for(seed, PROP, 9000 + sh)
+    W = scen.World(binpath)
+    res = common.Result()
+    reqs = []
+    good = pipeline.make_node(rng, W, 2, ["ed0"], nsteps=2, delegate_prob=1.0)
+    bad = pipeline.make_node(rng, W, 2, ["ed0"], nsteps=2, delegate_prob=1.0)
+    plain = pipeline.make_node(rng, W, 0, ["ed0"], nsteps=2)
+    for nd in (good, bad, plain):
+        pipeline.collect_requests(nd, reqs)
+    wires = scen.sign_all(binpath, reqs, nproc=1)
+    keys = [[W.kid("ed0"), W.pub("ed0")]]
+    gf = pipeline.tree_files(W, good, wires)
+    bf_full = pipeline.tree_files(W, bad, wires)
+    # failing variants of `bad`: an inner link removed (fails inside the sub-layout), everything removed, a corrupted file
+    inner = sorted(k for k in bf_full if "/" in k and k.endswith(".link"))
+    fails = []
+    for i in range(24):
+        f = dict(bf_full)
+        if i % 3 == 0 and inner:
+            del f[inner[i % len(inner)]]
+        elif i % 3 == 1:
+            f = {k: v for k, v in f.items() if "/" in k}
+        else:
+            k = sorted(f)[i % len(f)]
+            f[k] = f[k][:len(f[k]) // 2]
+        fails.append(scen.verify_case(wires[bad["req"]], keys, f, meta={"kind": "history_filler"}))
+    a = scen.verify_case(wires[good["req"]], keys, gf, reps=2, meta={"kind": "history", "nlinks": 0})
+    p = scen.verify_case(wires[plain["req"]], keys, pipeline.tree_files(W, plain, wires), reps=2, meta={"kind": "history_plain", "nlinks": 0})
+    seq = [a, p] + fails + [copy.deepcopy(a), copy.deepcopy(p)]
+    obs = common.run_batch(binpath, seq)          # one process, in this order
+    for first, again, name in ((0, len(seq) - 2, "delegated"), (1, len(seq) - 1, "plain")):
+        d = judge_group(seq[first], [obs[first], obs[again]], res)
+        if d is not None:
+            res.note(["history", name, seq[first]["layout"][:60]], True,
+                     cls=[f"history:{name}:outcomes:{len(d)}", "history:" + ("accept" if any(k[0] == "accept" for k in d) else "reject")], n=4)
+    nf = sum(1 for o in obs[2:-2] if not scen.harness_failed(o) and o["runs"][0]["v"] != "ok")
+    res.classes["history:failing_verifications_in_between"] += nf
+    return res
+
+
 def main(ctx):
     res = common.Result()
+    for p in common.pmap(history, [(ctx.bin, ctx.seed, s) for s in range(4 if not ctx.thorough else common.NPROC)]):
+        res.merge(p)
     n, reps, procs = (20, 24, 2) if not ctx.thorough else (320, 64, 8)
     mx = 0
     for p in common.pmap(shard, [(ctx.bin, ctx.seed, s, n, reps, procs) for s in range(common.NPROC)]):
@@ -237,6 +283,6 @@ def main(ctx):
              "non-trivial = the surplus links differ; distinct by (layout, directory); evaluations = verifications",
         assumptions=["fresh HashMap instances get fresh SipHash keys (std RandomState), fresh processes fresh base keys"],
         required=["kind:summary_only", "kind:disallow", "kind:match_next", "kind:delegated_surplus", "kind:require",
-                  "kind:multi_party_nested_dissent",
+                  "kind:multi_party_nested_dissent", "history:delegated:outcomes:1", "history:accept", "history:failing_verifications_in_between",
                   "iteration_order_varied", "accept_seen"],
         min_evals=2000)
